@@ -391,6 +391,13 @@ func c19SchedUnit(scope, tier string, part, parts int) core.Unit {
 	}}
 }
 
+func c19Bin() string {
+	if b := os.Getenv("VERIF_BIN"); b != "" {
+		return b
+	}
+	return filepath.Join(c19Root(), ".work")
+}
+
 func c19Root() string {
 	if r := os.Getenv("VERIF_ROOT"); r != "" {
 		return r
@@ -421,7 +428,7 @@ func init() {
 		},
 		Post: func(r *core.Result, tier string) {
 			// free-running -race pass of the same bodies (separate binary, no scheduler)
-			bin := filepath.Join(c19Root(), ".work", "vrace")
+			bin := filepath.Join(c19Bin(), "vrace")
 			rep := "10"
 			if tier == "thorough" {
 				rep = "100"
@@ -460,7 +467,7 @@ func init() {
 		Replay: func(v *core.Violation) (bool, string) {
 			switch v.Kind {
 			case "data-race", "concurrent-result-mismatch":
-				cmd := exec.Command(filepath.Join(c19Root(), ".work", "vrace"), "-repeats", v.Inputs[2])
+				cmd := exec.Command(filepath.Join(c19Bin(), "vrace"), "-repeats", v.Inputs[2])
 				cmd.Env = append(os.Environ(), "GORACE=halt_on_error=0 exitcode=66")
 				out, err := cmd.CombinedOutput()
 				if ee, ok := err.(*exec.ExitError); ok && ee.ExitCode() != 0 {
